@@ -96,8 +96,19 @@ def build_harness():
             os.path.join(VERIF, 'harness/vharness.c'), os.path.join(VERIF, 'harness/flow_shim.c')]
            + [os.path.join(inc, f) for f in CORE] + [os.path.join(REPO, 'os/esp32/daemon/lltd_esp32.c')])
     rc, out = sh(cmd)
-    if rc != 0: raise BuildError('verification harness does not compile against the working tree', out)
+    view = '1'
+    if rc != 0:
+        # a change to the automata structs the harness looks into: keep the frame-level operations alive
+        rc2, out2 = sh(cmd[:1] + ['-DVIEW_AUTOMATA=0'] + cmd[1:])
+        if rc2 != 0: raise BuildError('verification harness does not compile against the working tree', out)
+        view = '0'
+    open(os.path.join(BUILD, 'harness.view'), 'w').write(view)
     stamp_set('harness', dig)
+
+def harness_view():
+    """'1' if the harness can look into the automata objects, '0' if it had to be built without that view"""
+    try: return open(os.path.join(BUILD, 'harness.view')).read().strip()
+    except OSError: return '1'
 
 def build_linuxport():
     """os/linux/lltd_port.c as is + harness/linuxport_main.c"""
